@@ -1,6 +1,8 @@
 package props
 
 import (
+	"strings"
+
 	"verifharness/runner"
 	"verifharness/sim"
 	"verifharness/wx"
@@ -86,7 +88,7 @@ func init() {
 			job(sc(sim.CoreCfg("c01-core-k3-ids-15-16-17", 3, 1, []int{15, 0, 0, 0}, fMove|fVal|fBExch, oBasic).P("C01")), pick(tier, 5, 6), 1),
 			job(sc(sim.CoreCfg("c01-core-k3-ids-63-64-128", 3, 1, []int{63, 0, 63, 0}, fMove|fVal|fBExch, oBasic).P("C01")), pick(tier, 5, 6), 1),
 			job(sc(sim.CoreCfg("c01-core-k3-ids-0-191-255", 3, 128, []int{0, 190, 62, 0}, fMove|fVal|fBExch, oBasic).P("C01")), pick(tier, 4, 6), 1),
-			job(sc(sim.RelCfg("c01-rel-k3-cap1-storage", 0, 3, 0, 1, fBld|fMove|fRel|fRet|fVal|fBSet|fBExch, oBasic).P("C01")), pick(tier, 5, 7), 2),
+			job(sc(sim.RelCfg("c01-rel-k3-cap1-storage", 0, 3, 0, 1, fBld|fMove|fRel|fRet|fVal|fBSet|fBExch|fReset, oBasic).P("C01")), pick(tier, 5, 7), 2),
 			job(sc(sim.RelCfg("c01-rel-k4-cap2-retarget-val", 0, 4, 2, 2, fBld|fMove|fRet|fVal, oBasic).P("C01")), pick(tier, 5, 8), 1),
 		}
 		return js
@@ -110,8 +112,21 @@ func init() {
 			job(sc(sim.Rel2Cfg("c03-rel2-k3-iter", 3, 0, 8, fBld|fMove|fRel|fRet|fReg, oDeep).P("C03")), pick(tier, 4, 6), 2),
 			job(sc(sim.CoreCfg("c03-core-k4-iter", 4, 8, nil, fMove|fReg|fBNew|fBExch|fQ, oDeep).P("C03")), pick(tier, 4, 6), 3),
 			job(sc(sim.LogicCfg("c03-logic-k3-iter", 3, fMove|fReg, oDeep).P("C03")), pick(tier, 4, 6), 2),
+			job(sc(sim.RelCfg("c03-rel-k4-any-reg-life", 0, 4, 0, 8, fBld|fMove|fReg, oBasic).P("C03")), pick(tier, 7, 9), 3),
+			job(sc(sim.RelCfg("c03-rel-k4-batchq", 0, 4, 0, 8, fBld|fBSet|fBExch|fBNew|fQ, oBasic).P("C03")), pick(tier, 5, 7), 3),
+			job(sc(sim.CoreCfg("c03-core-k4-batchq", 4, 1, nil, fMove|fBExch|fBNew|fQ, oBasic).P("C03")), pick(tier, 5, 6), 2),
 		}
-	}, acceptProps("C03", "C09"))
+	}, func(f *wx.Failure, _ string) bool {
+		if f.Prop == "" || f.Prop == "C03" || f.Prop == "C09" {
+			return true
+		}
+		for _, p := range []string{"query-set", "cached-set", "cached-count", "iter:", "batchquery", "batch-query-set"} {
+			if strings.HasPrefix(f.Sig, p) {
+				return true
+			}
+		}
+		return false
+	})
 
 	// ------------------------------------------------------------------ C05 relation targets
 	wxCheck("C05", 90, 900, func(tier string) []runner.Job {
@@ -199,6 +214,9 @@ func init() {
 	wxCheck("C11", 90, 900, func(tier string) []runner.Job {
 		ev := func(c *sim.Cfg) wx.Scenario {
 			c.Listener = true
+			if len(c.Filters) > 5 && c.Filters[5].Name == "All()" {
+				c.BatchRefs = append(c.BatchRefs, 5) // batches spanning tables with and without relation
+			}
 			c.Oracles = sim.OState | sim.OEvents
 			return sc(c.P("C11"))
 		}
